@@ -317,3 +317,38 @@ def run_op_seq(ops):
         r = run_op(op)
         out.append(r)
     return out
+
+
+def run_specs(op):
+    """Front-end only: specification of every block text in op["blocks"] under op["argv"] flags.
+    Returns per block {"sfs": {...}, "subs": [...], "input": n} or {"exc": "..."}; every block starts
+    from restored module state only once (same process), as the tool itself would process them."""
+    import copy
+    fs = simfs.SimFS()
+    mods = seams.install(fs, op.get("env", {}))
+    g = mods["gasol_asm"]
+    pa = mods["sfs_generator.parser_asm"]
+    constants = mods["global_params.constants"]
+    old_out, old_err = sys.stdout, sys.stderr
+    sys.stdout, sys.stderr = io.StringIO(), io.StringIO()
+    out = []
+    try:
+        g.init()
+        params = parse_argv(mods, ["/sim/in/s.txt", "-bl"] + op["argv"])
+        if params.split_storage:
+            constants.append_store_instructions_to_split()
+        constants._set_push0(params.push0)
+        for bi, text in enumerate(op["blocks"]):
+            try:
+                blocks = pa.parse_blocks_from_plain_instructions(text, "c", "b%d" % bi)
+                b = blocks[0]
+                d, subs = g.compute_original_sfs_with_simplifications(b, params)
+                out.append({"sfs": copy.deepcopy(d["syrup_contract"]), "subs": copy.deepcopy(subs), "input": b.source_stack,
+                            "to_optimize": b.instructions_to_optimize_plain(), "name": b.block_name})
+            except BaseException as e:
+                if isinstance(e, procs.Budget):
+                    raise
+                out.append({"exc": "%s: %s" % (type(e).__name__, str(e)[:200])})
+    finally:
+        sys.stdout, sys.stderr = old_out, old_err
+    return out
